@@ -10,8 +10,8 @@ LEVEL = "proof"
 
 def run(rep, tier, seed, replay):
     ok, thms = vlib.proof_gates(rep, "C02")
-    n = satrun.sizes(tier)
-    r = satrun.run(seed, n)
+    n = 12000 if tier == "thorough" else 1200
+    r = satrun.run(seed, n, "--brute")
     s = r["summary"]
     for b in r["bad"].get("C02", []):
         frag = "j" if " j " in (" " + b.get("ms", "") + " ") else "other"
@@ -19,6 +19,12 @@ def run(rep, tier, seed, replay):
                       "implementation could not satisfy although a spending witness exists from the same assets: %s" % b.get("desc"),
                       dict(b, property="C02", engine="sat", seed=seed, n=n,
                            failed_clause="all_sat(ms, assets) contains a witness accepted by verify_spend, implementation returned CouldNotSatisfy"), True)
+    for b in r["bad"].get("C17", []):
+        # the planner built from plan::Assets says "no plan" while the same capabilities admit one
+        if b.get("what") == "assets-plan-differs-from-capabilities" and b.get("lib") == "none":
+            rep.violation("c02:assets-plan-missing", "into_plan* reports no plan for Assets that can spend: %s" % b.get("desc", "")[:200],
+                          dict(b, property="C02", engine="sat", seed=seed, n=n,
+                               failed_clause="plan from plan::Assets is None, plan from the same capabilities exists"), True)
     for d in r["diff"]:
         rep.violation("tie:satisfier-model", "model of the satisfier and implementation disagree: %s" % d.get("line", "")[:300],
                       dict(d, property="C02", broken_tie="correspondence Sat.v (satisfy) vs Descriptor::get_satisfaction*", seed=seed, n=n), False)
@@ -31,7 +37,8 @@ def run(rep, tier, seed, replay):
         "evaluations": s.get("c02_checked", 0), "distinct_nontrivial": s.get("c02_checked", 0),
         "rule": "every run of the sat engine in which the implementation returned an error and the property's premise can apply; non-trivial = the table was enumerated and each candidate executed",
         "unsatisfied_runs_checked": s.get("c02_checked", 0), "counterexamples": s.get("c02_bad", 0),
+        "bruteforce_runs": s.get("c02_brute_runs", 0), "bruteforce_executions": s.get("c02_brute_execs", 0),
         "model_runs_equal": s.get("model_eq", 0), "cases": s.get("cases", 0), "histogram": r["hist"],
         "samples": [{"summary": s}],
     })
-    rep.assumptions = ["existence of a spending witness is searched through the specification table (canonical entries), not by brute force over all byte strings"]
+    rep.assumptions = ["existence of a spending witness is searched through the specification table; for the first 300 unsatisfied malleable-mode runs additionally by brute force over the caller's own material up to 3-5 elements"]
